@@ -253,6 +253,10 @@ def analyse(prog, inputs, orders, counters=None, only_path=None):
                 if counters is not None:
                     counters.inc2("discarded", "unsupported")
                 break
+            stats["steps"] += sum(len(a) for inst in instances
+                                  for a in inst.values())
+            if counters is not None:
+                counters.inc2("faults_fired", "iteration-order:" + okind)
             if any(len(i) >= 2 for i in instances):
                 stats["traced_multi_iter"] += 1
                 stats["digests"].append(digest([prog, path, okind,
@@ -397,6 +401,7 @@ def run_one(seed, index, tier):
         counters.inc2("aborted_internal_error", type(err).__name__)
         out["log_digest"] = digest(["abort", type(err).__name__])
         return out
+    out["steps"] = stats.get("steps", 0)
     counters.inc("loops_analysed", stats["loops"])
     counters.inc("loops_reported_independent", stats["independent"])
     counters.inc("independent_loops_traced_with_2plus_iterations",
